@@ -84,7 +84,8 @@ CHECKS = {
         level="model_checking",
         clauses=GEN_CLAUSES_SPEC | {"errclass"},
         phases=dict(quick=[dict(kind="joinnames"), dict(kind="flatjoin", pre=2), dict(profile="join2"), dict(profile="joins3"), dict(profile="joinh4")],
-                    thorough=[dict(kind="flatjoin", pre=3, pairs=[(1, 2), (6, 2), (7, 2)]), dict(profile="join2"), dict(profile="join3"), dict(profile="joins4"), dict(profile="joinh4")]),
+                    thorough=[dict(kind="joinnames", lu=["a", "b", "a_t2", "b_t2", "a_t2_1", "b_t2_1", "a_t2_2", "a_x"], ru=["a", "b", "c", "a_t2", "b_t2"]),
+                              dict(kind="flatjoin", pre=3, pairs=[(1, 2), (6, 2), (7, 2)]), dict(profile="join2"), dict(profile="join3"), dict(profile="joins4"), dict(profile="joinh4")]),
     ),
     "C07": dict(
         level="model_checking",
@@ -101,8 +102,8 @@ CHECKS = {
     "C02": dict(
         level="model_checking",
         clauses=GEN_CLAUSES_SPEC,
-        phases=dict(quick=[dict(kind="proofs", canary=False), dict(profile="core2"), dict(profile="imm3", opts=dict(pool=True)), dict(profile="wins3"), dict(profile="tall2")],
-                    thorough=[dict(kind="proofs", canary=False), dict(profile="core2"), dict(profile="core3"), dict(profile="imm4", opts=dict(pool=True)), dict(profile="wins4"), dict(profile="tall2"), dict(profile="reroot3")]),
+        phases=dict(quick=[dict(kind="proofs", canary=False), dict(kind="verbnames"), dict(profile="core2"), dict(profile="imm3", opts=dict(pool=True)), dict(profile="wins3"), dict(profile="tall2")],
+                    thorough=[dict(kind="proofs", canary=False), dict(kind="verbnames", cols=["a", "b", "c", "x"], keys=["a", "b", "c", "x", "z"], vals=["a", "b", "c", "x", "y"]), dict(profile="core2"), dict(profile="core3"), dict(profile="imm4", opts=dict(pool=True)), dict(profile="wins4"), dict(profile="tall2"), dict(profile="reroot3")]),
     ),
     "C03": dict(
         level="model_checking",
@@ -204,10 +205,12 @@ CHECKS = {
     "C11": dict(
         level="model_checking",
         clauses={"meta", "trace-names", "trace-group", "trace-export-columns", "trace-unknown-input", "trace-sql-limit",
-                 "trace-sql-filtered", "trace-sql-grouped"},
-        phases=dict(quick=[dict(profile="core2"), dict(profile="join2"), dict(profile="union2"), dict(profile="hidsub4"),
+                 "trace-sql-filtered", "trace-sql-grouped", "names"},
+        phases=dict(quick=[dict(kind="verbnames"), dict(kind="joinnames"), dict(profile="core2"), dict(profile="join2"), dict(profile="union2"), dict(profile="hidsub4"),
                            dict(kind="tracemeta", profiles=[("core2", 400), ("join2", 300), ("agg3", 300)])],
-                    thorough=[dict(profile="core3"), dict(profile="join3"), dict(profile="union3"), dict(profile="agg3"), dict(profile="reroot3"),
+                    thorough=[dict(kind="verbnames", cols=["a", "b", "c", "x"], keys=["a", "b", "c", "x", "z"], vals=["a", "b", "c", "x", "y"]),
+                              dict(kind="joinnames", lu=["a", "b", "a_t2", "b_t2", "a_t2_1", "b_t2_1", "a_t2_2", "a_x"], ru=["a", "b", "c", "a_t2", "b_t2"]),
+                              dict(profile="core3"), dict(profile="join3"), dict(profile="union3"), dict(profile="agg3"), dict(profile="reroot3"),
                               dict(kind="tracemeta", profiles=[("core3", 3000), ("join3", 3000), ("agg3", 2000), ("wins3", 2000), ("reroot3", 2000)])]),
     ),
 }
